@@ -30,6 +30,13 @@ type Machine[I any] struct {
 	Key func(in I) string
 	// NonTrivial optionally classifies the transition (called after Apply with check=true).
 	MaxStates int
+	// Observe, when set, issues every query of the check's observation vector on the instance without
+	// comparing anything. Every transition is then executed a second time on a history in which the
+	// queries were issued at the start and after every earlier step ("observed history"): a query
+	// that leaves something behind (a memo, a lazily installed default) changes what a later call
+	// does, and the raw-state key cannot see such a residue. The quick tier does this for histories of
+	// up to three operations, the thorough tier for all of them.
+	Observe func(in I)
 	// MaxDepth, when positive, bounds the history length: states at that depth are checked but not
 	// expanded, and the search then counts as complete for "all histories up to MaxDepth".
 	MaxDepth int
@@ -45,6 +52,8 @@ type histCase struct {
 	Machine string   `json:"machine"`
 	History []int    `json:"history"`
 	Ops     []string `json:"ops"`
+	// Observed: the queries were issued at the start and after every step of the history
+	Observed bool `json:"observed_history,omitempty"`
 }
 
 func safeApply[I any](m *Machine[I], in I, op int, check bool) (out []string) {
@@ -89,6 +98,35 @@ func rebuild[I any](m *Machine[I], hist []int) (in I, names []string, ok bool) {
 			ok = false
 			return
 		}
+	}
+	return
+}
+
+// rebuildObserved replays a history with the queries issued at the start and after every step.
+func rebuildObserved[I any](m *Machine[I], hist []int) (in I, ok bool) {
+	in = m.New()
+	ok = true
+	obs := func() {
+		defer func() {
+			if r := recover(); r != nil {
+				if dp, dead := r.(deadlockPanic); dead {
+					heldMutexes.Delete(dp.mutex)
+				}
+				ok = false
+			}
+		}()
+		m.Observe(in)
+	}
+	obs()
+	for _, op := range hist {
+		if !ok {
+			return
+		}
+		if r := safeApply(m, in, op, false); hasPanic(r) {
+			ok = false
+			return
+		}
+		obs()
 	}
 	return
 }
@@ -142,8 +180,27 @@ func BFS[I any](c *Ctx, m *Machine[I]) bfsStats {
 						continue
 					}
 				}
-				r.keys = append(r.keys, m.Key(in))
-				r.hists = append(r.hists, append(append([]int{}, h...), op))
+				// the successor's key is taken from an instance on which no query was ever issued: the
+				// comparisons above call the library's queries, and if one of them leaves something
+				// behind, the contaminated key may merge this state with a different one
+				nh := append(append([]int{}, h...), op)
+				if inK, _, okK := rebuild(m, nh); okK {
+					r.keys = append(r.keys, m.Key(inK))
+				} else {
+					r.keys = append(r.keys, m.Key(in))
+				}
+				r.hists = append(r.hists, nh)
+				if m.Observe != nil && len(bad) == 0 && (!c.Quick() || len(h) <= 2) {
+					if in2, ok2 := rebuildObserved(m, h); ok2 && m.Enabled(in2, op) {
+						r.trans++
+						for _, b := range safeApply(m, in2, op, true) {
+							key, detail := splitKD(b)
+							nh := append(append([]int{}, h...), op)
+							c.Violation(key+":observed-history", fmt.Sprintf("[%s] after %v then %s, with every query issued at the start and after every earlier step: %s", m.Name, names, name, detail),
+								histCase{Machine: m.Name, History: nh, Ops: append(append([]string{}, names...), name), Observed: true}, len(nh))
+						}
+					}
+				}
 			}
 			results[i] = r
 		})
@@ -194,10 +251,17 @@ func splitKD(s string) (string, string) {
 }
 
 // replayHistory re-executes one history with full checking (used by --replay).
-func replayHistory[I any](c *Ctx, m *Machine[I], hist []int) {
+func replayHistory[I any](c *Ctx, m *Machine[I], hist []int, observed ...bool) {
 	in := m.New()
 	var names []string
+	obs := len(observed) > 0 && observed[0] && m.Observe != nil
+	if obs {
+		m.Observe(in)
+	}
 	for i, op := range hist {
+		if obs && i > 0 {
+			m.Observe(in)
+		}
 		name := m.OpName(in, op)
 		names = append(names, name)
 		bad := safeApply(m, in, op, true)
